@@ -72,6 +72,19 @@ def tus(tier, seed, table=None):
             body += '  wshift<%s, %s, %s>(rng);\n' % (TAGS[tg], CT[a], CT[b])
         body += '}\n'
         res.append(dict(name='%s_wshift_%d' % (table, i // 4), src=body, compiler='clang++' if i else 'g++', defines=['CNL_VERIF_OVERFLOW_PATH=%d' % (1 if i else 2)]))
+    # ++ / -- on overflow_integer; overflow_integer over class-type representations with a most negative number
+    for k, (tg, pth, comp) in enumerate([('sat', 1, 'g++'), ('thr', 2, 'clang++'), ('trp', 1, 'g++')]):
+        if k != seed % 3 and tier == 'quick' and k != (seed + 1) % 3:
+            continue
+        body = '#define VH_TABLE "%s"\n#include "%s"\n#include <cnl/rounding_integer.h>\n#include <cnl/wide_integer.h>\nint main(){ install(); Rng rng(seed_from_env()+%d);\n' % (
+            table, __file__.replace('C07.py', 'C06.py').replace('.py', '.h'), 950 + k)
+        for t in ['i8', 'u8', 'i16', 'i32', 'u32', 'i64', 'u64']:
+            body += '  wincdec<%s, %s>(rng);\n' % (TAGS[tg], CT[t])
+        body += '  wclass<%s, rounding_integer<std::int32_t, native_rounding_tag>, std::int32_t>(rng);\n' % TAGS[tg]
+        body += '  wclass<%s, wide_integer<31, int>, std::int32_t>(rng);\n' % TAGS[tg]
+        body += '  wclass<%s, rounding_integer<std::int64_t, native_rounding_tag>, std::int64_t>(rng);\n' % TAGS[tg]
+        body += '}\n'
+        res.append(dict(name='%s_winc_%s' % (table, tg), src=body, compiler=comp, defines=['CNL_VERIF_OVERFLOW_PATH=%d' % pth]))
     # floating-point sources
     FT = {'f32': 'float', 'f64': 'double', 'f80': 'long double'}
     # every floating format x every destination type (the limit of a destination with more digits than the
